@@ -353,6 +353,39 @@ theorem explicit_read_after_history (fuel g : Nat) (i : Inst) (n : Name) (v : Va
     step (g + 1) (run fuel st ops) (.read i n) = ((run fuel st ops).fresh, .res (.val v)) :=
   read_explicit g _ i n v (by rw [explicit_value_stable fuel i n ops st hi hops]; exact h)
 
+/-- **An assigned callable is invoked on EVERY read, after every history that does not set the hook again** (reads —
+also of this hook —, re-evaluations, cache clears, registrations, removals, other instances, hand-overs): a callable
+without parameters is invoked with no argument, exactly once per read (trace `[id]`), and its result — `None`
+included — is returned; neither a remembered value nor an implementation stands in for it.  (`call0` = a python
+callable for which `inspect.signature` reports no parameter, whatever its kind: lambda, def, bound method, partial,
+callable object, builtin; that classification is the harness's and is part of the trusted base.) -/
+theorem explicit_callable0_every_read (fuel g : Nat) (i : Inst) (n : Name) (id : Id) (r : Option Val) (ops : List Op)
+    (st : State) (hi : i < st.n) (hops : ∀ op ∈ ops, op.setsExplicit i n = false)
+    (h : lookup n (st.obj i).dict = some (.call0 id r)) :
+    step (g + 1) (run fuel st ops) (.read i n) = ((run fuel st ops).fresh.log id, .res (Res.ofOpt r)) :=
+  read_explicit_callable0 g _ i n id r (by rw [explicit_value_stable fuel i n ops st hi hops]; exact h)
+
+/-- ... and a one-parameter callable is invoked with the instance: after every such history the read IS the evaluation
+of its body on `i` in the state reached (invocation recorded first). -/
+theorem explicit_callable1_every_read (fuel g : Nat) (i : Inst) (n : Name) (id : Id) (b : Body) (ops : List Op)
+    (st : State) (hi : i < st.n) (hops : ∀ op ∈ ops, op.setsExplicit i n = false)
+    (h : lookup n (st.obj i).dict = some (.call1 id b)) :
+    step (g + 1) (run fuel st ops) (.read i n) =
+      ((ev g ((run fuel st ops).fresh.log id) (.body i b)).1,
+       .res (ev g ((run fuel st ops).fresh.log id) (.body i b)).2) :=
+  read_explicit_callable1 g _ i n id b (by rw [explicit_value_stable fuel i n ops st hi hops]; exact h)
+
+/-- **The value an assigned callable produces is not remembered**: the read leaves every instance (explicit and
+remembered values) exactly as it was, and an immediately following read invokes the callable again. -/
+theorem explicit_callable_not_remembered (fuel g : Nat) (st : State) (i : Inst) (n : Name) (id : Id) (r : Option Val)
+    (h : lookup n (st.obj i).dict = some (.call0 id r)) :
+    step (g + 1) (step (fuel + 1) st (.read i n)).1 (.read i n) = (st.fresh.log id, .res (Res.ofOpt r)) ∧
+    (step (fuel + 1) st (.read i n)).1.obj = st.obj := by
+  rw [read_explicit_callable0 fuel st i n id r h]
+  refine ⟨?_, rfl⟩
+  rw [read_explicit_callable0 g (st.fresh.log id) i n id r (by simpa [State.log] using h)]
+  simp [State.log]
+
 /-- **Root hooks survive re-evaluation (and every further solver iteration)**: a plain explicit value — which is what
 root-hook evaluation leaves — stays a plain explicit value through every history in which nobody assigns or deletes it
 by hand; later root evaluations only replace it by the newly computed plain value. -/
@@ -471,6 +504,18 @@ example : (step 9 (run 9 init (exBase ++ [.assign 0 1 (.call1 7 (.read 0 3 1))])
     = .res (.val (.int 16)) := by decide
 example : (step 9 (run 9 init (exBase ++ [.assign 0 1 (.call0 7 (some (.bool false)))])) (.read 0 1)).2
     = .res (.val (.bool false)) := by decide
+-- an explicit callable over a remembered value: invoked (trace `[7]`) on the read after re-evaluation, cache clear and a
+-- new registration; the falsy result `0` is returned; hypotheses of `explicit_callable0/1_every_read` are satisfiable
+example : (step 9 (run 9 init (exBase ++ [.read 0 1, .assign 0 1 (.call0 7 (some (.int 0))), .read 0 1, .reevaluate 0,
+      .clearCache 0, .addImpl 2 1 1 (.const (.int 3))])) (.read 0 1)) |> fun r => (r.1.trace, r.2)
+    = ([7], .res (.val (.int 0))) := by decide
+example : (∀ op ∈ [Op.read 0 1, .reevaluate 0, .clearCache 0, .addImpl 2 1 1 (.const (.int 3))],
+      op.setsExplicit 0 1 = false) ∧
+    lookup 1 ((run 9 init (exBase ++ [.read 0 1, .assign 0 1 (.call1 7 (.read 0 3 1))])).obj 0).dict
+      = some (.call1 7 (.read 0 3 1)) ∧ 0 < (run 9 init exBase).n := by decide
+-- the result of the callable is not remembered: `h1` keeps the value 50 computed before the assignment
+example : ((step 9 (run 9 init (exBase ++ [.read 0 1, .assign 0 1 (.call0 7 (some (.int 0)))])) (.read 0 1)).1.obj 0).cache
+    = [(0, some (.int 5)), (1, some (.int 50))] := by decide
 example : (step 9 (run 9 init (exBase ++ [.assign 0 0 .none])) (.hasSet 0 0)).2 = .flag true ∧
     (step 9 (run 9 init (exBase ++ [.assign 0 0 .none])) (.read 0 0)).2 = .res (.val (.int 5)) := by decide
 -- re-evaluation after a registration change on the BASE class recomputes the remembered names from the new registry;
